@@ -31,7 +31,8 @@ fn spellings() -> Vec<String> {
     for s in ["A", "B$", "SCORE", "X1", "FNA", "E5"] {
         v.push(s.to_string());
     }
-    for n in ["1", ".5", "007", "1.", "12.5", "100000000000000000000000", ".0000001"] {
+    // (the last five: digits and the letter E in the arrangements an exponent notation would use)
+    for n in ["1", ".5", "007", "1.", "12.5", "100000000000000000000000", ".0000001", "1E3", "2e", "E3", "E", "1E-3"] {
         v.push(n.to_string());
     }
     for s in ["\"s p\"", "\"é\"", "\"\"", "\"IF x THEN\""] {
